@@ -265,8 +265,11 @@ def random_correspondence(ctx, res, programs, max_keys=5000, keep_runs=True, cto
     `thm_keys` keys the executable statements of the theorems of Properties/C04-C06
     (sound / injective / complete against Sem.all_valid / #accepted = #valid / possible_keys = #valid
     when nothing is rejected) are evaluated on the model:
-    rec["thm"] = ("frag", nkeys, sound, inj, complete, accepted_count, count, in_frag0, rejection_free, naccepted)
-               | ("outside",) | ("big", n, in_frag0) | ("refused", in_frag0)  (show_errors() fails)."""
+    rec["thm"] = ("frag", nkeys, sound, inj, complete, accepted_count, count, in_frag0, rejection_free, naccepted,
+                  level, enumerates)
+               | ("outside",) | ("big", n, level) | ("refused", level)  (show_errors() fails);
+    level: 0 = Frag.frag0, 1 = Frag.frag1, 2 = Frag.frag2 (weights); enumerates = FragSem.enumerates_b,
+    the side condition of the frag2 completeness / count theorems."""
     recs = []
     lines = []
     for program in programs:
@@ -307,7 +310,7 @@ def random_correspondence(ctx, res, programs, max_keys=5000, keep_runs=True, cto
         t = outs[rec["line_idx"] + 2]
         rec["thm"] = tuple(_canon(common.parse_sexp(t)[0])) if not t.startswith("!") else ("model-crash", t)
         if rec["thm"][0] == "frag":
-            res.layer("L8-theorem-statements", all(x is True for x in rec["thm"][2:7]))
+            res.layer("L8-theorem-statements", all(x is True for x in rec["thm"][2:7]) and rec["thm"][11] is True)
         rec["enum_model"] = m_enum
         r_en = rec["r_en"]
         if m_enum[0] == "model-crash" or m_all[0] == "model-crash":
